@@ -13,7 +13,6 @@ package main
 import (
 	"context"
 	"encoding/json"
-	"errors"
 	"fmt"
 	"net/http"
 	"runtime"
@@ -43,7 +42,8 @@ type Case struct {
 	ParentNs *int64  `json:"parent_ns"` // parent deadline, offset from the start; nil = none
 	H0       [][]any `json:"h0"`
 	Script   [][]any `json:"script"`
-	Fl       bool    `json:"fl"` // the real writer is an http.Flusher
+	Fl       bool    `json:"fl"`     // the real writer is an http.Flusher
+	PShape   string  `json:"pshape"` // shape of the caller's context (ctxshape.go)
 	D        DSpec   `json:"d"`
 }
 
@@ -77,13 +77,8 @@ func runRest(c Case) (out Out) {
 	var t1 time.Time
 
 	tA := time.Now()
-	parent := context.Background()
-	var cancelDl context.CancelFunc = func() {}
-	if c.ParentNs != nil {
-		parent, cancelDl = context.WithDeadline(parent, tA.Add(time.Duration(*c.ParentNs)))
-	}
-	defer cancelDl()
-	parent, cancelParent := context.WithCancel(parent)
+	parent, cancelParent, releaseParent := mkParent(c.PShape, tA, c.ParentNs)
+	defer releaseParent()
 	defer cancelParent()
 
 	script := c.Script
@@ -364,13 +359,16 @@ func runRest(c Case) (out Out) {
 	return out
 }
 
+// errID identifies what a wrapper returned BY IDENTITY: nil, context.DeadlineExceeded,
+// context.Canceled, one of the work's own errors "e<N>"; anything else (a custom cancel
+// cause, a wrapped context error, ...) is -99 and belongs to no allowed result.
 func errID(err error) int64 {
 	switch {
 	case err == nil:
 		return 0
-	case errors.Is(err, context.DeadlineExceeded):
+	case err == context.DeadlineExceeded:
 		return -1
-	case errors.Is(err, context.Canceled):
+	case err == context.Canceled:
 		return -2
 	}
 	if n, e := strconv.ParseInt(strings.TrimPrefix(err.Error(), "e"), 10, 64); e == nil && strings.HasPrefix(err.Error(), "e") {
